@@ -2,8 +2,12 @@ package replay
 
 import (
 	"bytes"
+	"context"
 	"crypto/sha256"
 	"fmt"
+	cidlink "github.com/ipld/go-ipld-prime/linking/cid"
+	"github.com/ipld/go-ipld-prime/storage/fsstore"
+	"os"
 	"runtime"
 	"strings"
 	"sync"
@@ -36,6 +40,8 @@ type ConcWorld struct {
 	gr            *Graph
 	sel           selector.Selector
 	selDMT        datamodel.Node
+	fsLS          linking.LinkSystem
+	fsDir         string // the directory of the shared filesystem store (removed by Close)
 	cfg           *traversal.Config
 	baseline      map[string]string
 	gen           schema.TypedNode // a node of freshly generated code (only in the runner built with the generated package)
@@ -87,6 +93,23 @@ func NewConcWorld() (*ConcWorld, error) {
 	if err != nil {
 		return nil, err
 	}
+	// the graph's blocks once more in a filesystem store (read-only from here on)
+	fsdir, err := os.MkdirTemp("", "verif-conc-fsstore-")
+	if err != nil {
+		return nil, err
+	}
+	w.fsDir = fsdir
+	fst := &fsstore.Store{}
+	if err := fst.InitDefaults(fsdir); err != nil {
+		return nil, err
+	}
+	for k, v := range w.gr.Store.Bag {
+		if err := fst.Put(context.Background(), k, v); err != nil {
+			return nil, err
+		}
+	}
+	w.fsLS = cidlink.DefaultLinkSystem()
+	w.fsLS.SetReadStorage(fst)
 	w.cfg = &traversal.Config{LinkSystem: w.gr.LS, LinkTargetNodePrototypeChooser: func(datamodel.Link, linking.LinkContext) (datamodel.NodePrototype, error) {
 		return basicnode.Prototype.Any, nil
 	}}
@@ -168,7 +191,14 @@ var hconvOption = bindnode.TypedStringConverter(&HConvInner{},
 
 // (bind-plain comes before bind-converter: the sequential reference runs the list twice, so the refusal is seen both
 // before and after the same pair was bound with the converter)
-var ConcOps = []string{"bind-plain", "bind-converter", "focus-get", "transform", "compile-selector", "read-basic", "read-bind", "read-bind-repr", "deep-equal", "copy", "encode-cbor", "encode-json", "walk", "load",
+// Close removes what the world keeps on disk.
+func (w *ConcWorld) Close() {
+	if w.fsDir != "" {
+		os.RemoveAll(w.fsDir)
+	}
+}
+
+var ConcOps = []string{"bind-plain", "bind-converter", "focus-get", "transform", "compile-selector", "load-fs", "read-basic", "read-bind", "read-bind-repr", "deep-equal", "copy", "encode-cbor", "encode-json", "walk", "load",
 	"loadraw", "build-basic", "build-bind", "wrap-explicit", "proto-inferred", "struct-lookup", "ts-clone", "ts-merge"}
 
 func projStr(n datamodel.Node) (string, error) {
@@ -310,6 +340,14 @@ func (w *ConcWorld) Do(op string, g int, fresh *freshStruct) (string, error) {
 		runtime.Gosched() // keep using the bytes for a while
 		sum := sha256.Sum256(b)
 		return fmt.Sprintf("block%d:%x", 1+g%3, sum[:8]), nil
+	case "load-fs":
+		// the same blocks through a link system over a shared, read-only FILESYSTEM store: each goroutine its own link
+		n, err := w.fsLS.Load(linking.LinkContext{}, w.gr.Links[1+g%3], basicnode.Prototype.Any)
+		if err != nil {
+			return "", err
+		}
+		s, err := projStr(n)
+		return fmt.Sprintf("block%d:%s", 1+g%3, s), err
 	case "build-basic":
 		nb := basicnode.Prototype.Map.NewBuilder()
 		ma, _ := nb.BeginMap(2)
@@ -440,7 +478,7 @@ func (w *ConcWorld) Do(op string, g int, fresh *freshStruct) (string, error) {
 
 // baselineFor: load / loadraw depend on the goroutine's block
 func (w *ConcWorld) expected(op string, g int) string {
-	if op == "load" || op == "loadraw" {
+	if op == "load" || op == "loadraw" || op == "load-fs" {
 		r, _ := w.Do(op, g, nil)
 		return r
 	}
